@@ -135,6 +135,19 @@ def _literal(v: ast.AST) -> bool:
     return False
 
 
+def _tuple_of_imports(v: ast.AST, tree: ast.Module, stores: Dict[str, int]) -> bool:
+    """a tuple display whose elements are names bound by an import (or a class statement) of this module and never re-bound: as constant as a literal"""
+    if not (isinstance(v, ast.Tuple) and v.elts and all(isinstance(e, ast.Name) for e in v.elts)):
+        return False
+    bound = set()
+    for st in tree.body:
+        if isinstance(st, (ast.Import, ast.ImportFrom)):
+            bound |= {a.asname or a.name.split(".")[0] for a in st.names}
+        elif isinstance(st, ast.ClassDef):
+            bound.add(st.name)
+    return all(e.id in bound and stores.get(e.id, 0) == 0 for e in v.elts)
+
+
 def _fold_arith(e: ast.AST, known: Dict[str, ast.AST]) -> Optional[ast.AST]:
     import operator
     ops = {ast.Add: operator.add, ast.Sub: operator.sub, ast.Mult: operator.mul, ast.FloorDiv: operator.floordiv, ast.Pow: operator.pow, ast.LShift: operator.lshift}
@@ -187,6 +200,12 @@ def normalise(parsed: List[Tuple[str, ast.Module, bool]]) -> Dict[str, List[str]
                 cands = [m_ for m_ in rest_missing if ref_f[key + m_][0] == arity(defs[n]) and _similar(n, m_)]
                 if len(cands) == 1 and sum(1 for n2 in rest_new if ref_f[key + cands[0]][0] == arity(defs[n2]) and _similar(n2, cands[0])) == 1:
                     pairs[n] = cands[0]
+            # one function gone, one of the same arity arrived in the same scope, both private: a rename with edits (`_hmac` -> `_compute_tag`)
+            rest_new = [n for n in new if n not in pairs]
+            rest_missing = [m_ for m_ in missing if m_ not in pairs.values()]
+            if len(rest_new) == 1 and len(rest_missing) == 1 and rest_new[0].startswith("_") and rest_missing[0].startswith("_") \
+                    and ref_f[key + rest_missing[0]][0] == arity(defs[rest_new[0]]):
+                pairs[rest_new[0]] = rest_missing[0]
             for n, old in pairs.items():
                 defs[n].name = old
                 log.setdefault(module, []).append(f"{key}{n} -> {old}")
@@ -212,7 +231,7 @@ def normalise(parsed: List[Tuple[str, ast.Module, bool]]) -> Dict[str, List[str]
                 fn_renames.setdefault(module, {})[n] = cands[0]
                 log.setdefault(module, []).append(f"{module}:{n} -> {cands[0]} (module-level name)")
                 missing_g.remove(cands[0])
-            elif _literal(g[n][0]):
+            elif _literal(g[n][0]) or _tuple_of_imports(g[n][0], tree, stores):
                 consts.setdefault(module, {})[n] = g[n][0]
                 log.setdefault(module, []).append(f"{module}:{n} = literal (folded)")
             else:
